@@ -81,7 +81,11 @@ class RefProblem(object):
         for i in range(self.n_cells):
             if base[i].sum() == 0:
                 base[i, 0] = 1
-        self.X = base.astype(np.float32)
+        # float64 with noise in the low bits: per-worker partial sums then
+        # depend on the order in which they are added up, so a merge in
+        # completion order would show (float32 data sums exactly in float64)
+        self.X = base.astype(np.float64)
+        self.X[self.X > 0] += nprng.random(int((self.X > 0).sum())) * 0.5
         # query: reference-like cells, genes permuted
         nq = n_query or rng.randint(8, 20)
         self.query_genes = list(self.genes)
